@@ -1148,3 +1148,30 @@ def np_gcd_reduce(ex, self, args, kw):
         ex.ctx.assume(to_z3(e) == g * k)
     ex.ctx.ghost.setdefault("gcds", []).append((g, list(items)))
     return g
+
+
+@lib(NP, "flip")
+def np_flip(ex, args, kw):
+    v = args[0]
+    if isinstance(v, Vec):
+        return Vec(list(reversed(v.items)), v.kind)
+    if isinstance(v, (list, tuple)):
+        return Vec(list(reversed(v)), "array")
+    raise Unsupported("np.flip of a symbolic-length array")
+
+
+@lib(NP, "sort")
+def np_sort(ex, args, kw):
+    """np.sort of a short concrete-length vector: the keys taken in argsort order"""
+    v = args[0]
+    order = np_argsort(ex, [v], {})
+    items = v.items if isinstance(v, Vec) else (list(v) if isinstance(v, (list, tuple)) else [as_ndarray(v).elem((i,)) for i in range(len(order.items))])
+    if all(not is_z3(i) for i in order.items):
+        return Vec([items[i] for i in order.items], "array")
+    out = []
+    for p in order.items:
+        e = items[-1]
+        for i in range(len(items) - 2, -1, -1):
+            e = zite(to_z3(p) == i, items[i], e)
+        out.append(e)
+    return Vec(out, "array")
